@@ -1,7 +1,9 @@
 """C04 -- Thevenin and Norton equivalents reproduce the terminal behaviour of the original.
 
-1. lake build Lcapy.Props.C04 (port_affine, port_affine_unique, thevenin_norton_equiv,
-   thevenin_port, norton_port, load_invariance, killAll_has_no_sources), axioms audit.
+1. lake build Lcapy.Props.C04 (port_affine, port_affine_unique, thevenin_norton_equiv, thevenin_port, norton_port,
+   load_invariance, killAll_has_no_sources), Props/C04Ground (reground_laws_iff, measure_ground_independent and the
+   seven quantities), Props/C04Ops (killAll_indep_zero, killed_ivp_is_lap, voc_keeps_ics, zparams_rel, yparams_rel, …),
+   axioms audit.
 2. Correspondence: Voc between random node pairs and the driving-point impedance (all sources
    AND initial conditions killed, 1 A probe) computed by the Lean MNA model from the raw netlist
    against `cct.thevenin(p, m)` / `cct.impedance(p, m)` of the real Lcapy at rational points.
@@ -10,6 +12,10 @@
    series RL, R with a source) attached to the original circuit and to the Thevenin / Norton
    one-ports sees the same voltage; impedance does not depend on which node is called ground;
    impedance and transfer functions do not contain initial-condition symbols.
+4. Round 3: ports of ac (phasor) and dc circuits through their own analysis kinds; the port experiments are built by
+   the LEAN model from the raw netlist (`port.*` requests: kill, probe, re-ground, two-port drive); re-grounding through
+   Lcapy's own `_add_ground` (netlist without a node 0); two-port extraction (Zparams, Yparams, Aparams, Hparams,
+   twoport()) judged by the C08 port relations on the driven killed netlist.
 """
 import os
 import sys
@@ -21,17 +27,27 @@ import common
 from common import fstr
 import gen_netlist
 from gen_netlist import fs
-from c01 import parse_reply
+from c01 import parse_reply, norm
 
 warnings.filterwarnings('ignore')
 
 
 def run(chk, replay=None):
-    broken = chk.lean(['Lcapy/Props/C04.lean'],
+    broken = chk.lean(['Lcapy/Props/C04.lean', 'Lcapy/Props/C04Ground.lean', 'Lcapy/Props/C04Ops.lean', 'Lcapy/Props/C04Load.lean'],
                       helper_files=['Lcapy/Proofs/Linear.lean', 'Lcapy/Proofs/MNA.lean', 'Lcapy/Model/MNA.lean',
-                                    'Lcapy/Model/Sources.lean', 'Lcapy/Spec/Laws.lean', 'Lcapy/Props/C03.lean'],
+                                    'Lcapy/Model/Sources.lean', 'Lcapy/Spec/Laws.lean', 'Lcapy/Props/C03.lean',
+                                    'Lcapy/Proofs/Ground.lean', 'Lcapy/Model/PortOps.lean', 'Lcapy/Driver/C04.lean'],
                       leanchecker=(chk.tier == 'thorough'))
+    import time as _time
+    tmark = {'t': chk.t0}
+    timing = chk.coverage.setdefault('timing_s', {})
+
+    def mark(name):
+        now = _time.time()
+        timing[name] = round(timing.get(name, 0) + now - tmark['t'], 1)
+        tmark['t'] = now
     drv = chk.get_driver()
+    mark('lean-build-and-audit')
     import lcapy
     import sympy as S
     from lcapy import state, s as ss
@@ -54,15 +70,64 @@ def run(chk, replay=None):
         x = x.subs(ss.sympy, R_(sp))
         return common.gauss_rational(S.simplify(x))
 
-    conv_budget = [8 if quick else 120]
+    conv_budget = [6 if quick else 120]
+
+    def cmul(a, b):
+        return (a[0] * b[0] - a[1] * b[1], a[0] * b[1] + a[1] * b[0])
 
     def one_case(case):
+        """one netlist x one node pair, in the analysis kind of the netlist: 's' (step sources, zero state), 'ivp' (initial
+        conditions), 'ac' (phasors at the netlist's angular frequency), 'dc'"""
         nonlocal n_cex
-        if any(l.split()[0][:2] in ('TR', 'AM', 'GY') or l.split()[0][0] in 'KW' for l in case['lines']):
-            chk.count('skipped', 'kind-not-used-here')
         subs = case['subs']
+        kind = case['analysis']
         text = '\n'.join(case['lcapy'])
         sp = Fraction(rng.randint(1, 9), rng.randint(2, 5))
+        om = case.get('omega')
+        has_ic = any(l.split()[0][0] in 'CL' and len(l.split()) == 5 for l in case['lines'])
+        if kind == 'ac':
+            an_tok, pt = 'ac %s' % fstr(om), (Fraction(0), om)         # s = j omega
+        elif kind == 'dc':
+            an_tok, pt = 'dc', (Fraction(0), Fraction(0))
+        else:
+            an_tok, pt = ('ivp %s' if has_ic else 's %s') % fstr(sp), (sp, Fraction(0))
+        ptS = R_(pt[0]) + S.I * R_(pt[1])
+
+        def imm(e):
+            """an immittance / transfer function at the analysis point"""
+            x = e.sympy if hasattr(e, 'sympy') else S.sympify(e)
+            x = x.subs({q: R_(subs[q.name]) for q in x.free_symbols if q.name in subs})
+            x = S.simplify(x.subs(ss.sympy, ptS))
+            if x.has(S.zoo, S.nan, S.oo):
+                return None
+            return common.gauss_rational(x)
+
+        def src(X):
+            """a voltage / current (superposition) in the analysis domain of this netlist"""
+            if kind in ('s', 'ivp'):
+                return at(X.laplace(), sp, subs)
+            if kind == 'dc':
+                x = X.dc
+            else:
+                ks = [k_ for k_ in X.ac_keys() if S.simplify(S.sympify(k_) - R_(om)) == 0]
+                if not ks:
+                    return (Fraction(0), Fraction(0))
+                x = X[ks[0]]
+            x = x.sympy if hasattr(x, 'sympy') else S.sympify(x)
+            x = x.subs({q: R_(subs[q.name]) for q in x.free_symbols if q.name in subs})
+            return common.gauss_rational(S.expand_complex(S.simplify(x)))
+
+        def probe_line(name, p_, m_, J):
+            if kind == 'ac':
+                return '%s %s %s ac %s 0 %s' % (name, p_, m_, fs(J), fs(om))
+            if kind == 'dc':
+                return '%s %s %s dc %s' % (name, p_, m_, fs(J))
+            return '%s %s %s step %s' % (name, p_, m_, fs(J))
+
+        def probe_val(J):
+            """value of that probe source in the analysis domain"""
+            return (J / sp, Fraction(0)) if kind in ('s', 'ivp') else (J, Fraction(0))
+
         try:
             cct = lcapy.Circuit(text)
             nodes = [n for n in cct.node_list]
@@ -73,38 +138,36 @@ def run(chk, replay=None):
                 m = '0'
             th = cct.thevenin(p, m)
             no = cct.norton(p, m)
-            Voc = at(th.Voc.laplace(), sp, subs)
-            Z = at(th.Z, sp, subs)
-            Isc = at(no.Isc.laplace(), sp, subs)
-            Y = at(no.Y, sp, subs)
+            Voc = src(th.Voc)
+            Z = imm(th.Z)
+            Isc = src(no.Isc)
+            Y = imm(no.Y)
         except Exception as e:   # noqa
-            chk.count('lcapy-error', type(e).__name__ + ':' + str(e)[:40])
+            chk.count('lcapy-error', kind + ':' + type(e).__name__ + ':' + str(e)[:40])
             chk.case(('err', text), False)
             return
         if None in (Voc, Z, Isc, Y):
-            chk.count('lcapy', 'non-rational-sample')
+            chk.count('lcapy', 'non-rational-sample' if kind in ('s', 'ivp') else 'immittance-undefined-at-the-point:' + kind)
             chk.case(('nr', text), False)
             return
-        chk.count('analysis', case['analysis'])
+        chk.count('analysis', kind + ('+ics' if has_ic else ''))
         chk.count('port', 'grounded' if m == '0' or p == '0' else 'floating')
         nontriv = Z != (0, 0)
         chk.case((text, p, m, sp), nontriv)
-        chk.sample({'netlist': case['lcapy'], 'port': [p, m], 's': fstr(sp)})
-        key_in = {'netlist': case['lcapy'], 'port': [p, m], 's': fstr(sp), 'subs': {q: fstr(v) for q, v in subs.items()}}
-
-        def cmul(a, b):
-            return (a[0] * b[0] - a[1] * b[1], a[0] * b[1] + a[1] * b[0])
+        chk.sample({'netlist': case['lcapy'], 'port': [p, m], 'analysis': an_tok})
+        key_in = {'netlist': case['lcapy'], 'port': [p, m], 'analysis': an_tok, 's': fstr(sp), 'subs': {q: fstr(v) for q, v in subs.items()}}
+        ktag = {} if kind in ('s', 'ivp') else {'analysis': kind}
 
         # (a) Thevenin <-> Norton consistency
         chk.count('oracle', 'voc=isc*z')
         if cmul(Isc, Z) != Voc or (nontriv and cmul(Z, Y) != (1, 0)):
             n_cex += 1
-            chk.counterexample({'kind': 'thevenin-norton-consistency'},
+            chk.counterexample(dict({'kind': 'thevenin-norton-consistency'}, **ktag),
                                {'input': key_in, 'lcapy': {'Voc': str(Voc), 'Z': str(Z), 'Isc': str(Isc), 'Y': str(Y)},
                                 'spec': 'Voc = Isc Z and Z Y = 1'}, 'Thevenin and Norton models are not equivalent')
         # (a') Voc = Isc Z also holds for the models reported under the other documented current sign conventions
         #      (hybrid, active): the property does not restrict the configuration
-        if conv_budget[0] > 0:
+        if conv_budget[0] > 0 and kind in ('s', 'ivp'):
             conv_budget[0] -= 1
             for cv in ('hybrid', 'active'):
                 try:
@@ -129,43 +192,60 @@ def run(chk, replay=None):
                                         'spec': 'Voc = Isc Z under every current sign convention'},
                                        'Thevenin and Norton models are not equivalent under current_sign_convention=%s' % cv)
                     break
-        # (b) no initial-condition symbols/values leak into Z: compare with the IC-free circuit
+        # (b) kills_ics on the real code: the killed circuit has no independent source and no initial condition, and
+        #     no initial-condition symbols/values leak into Z: compare with the IC-free circuit
         try:
+            kn = cct.kill()
+            # (a voltage source that controls a CCCS / CCVS is kept as a 0 V source, `cpt._zero()`: that IS killed)
+            left = [x_.name for x_ in kn.elements.values() if x_.has_ic]
+            for sn in kn.independent_sources:
+                el_ = kn.elements[sn]
+                if not ((el_.is_voltage_source and el_.Voc == 0) or (el_.is_current_source and el_.Isc == 0)):
+                    left.append(sn)
+            chk.count('oracle', 'kill-leaves-nothing')
+            if left:
+                n_cex += 1
+                chk.counterexample({'kind': 'impedance-ics', 'where': 'kill'},
+                                   {'input': key_in, 'lcapy': {'killed netlist': str(kn.netlist()), 'still live': left},
+                                    'spec': 'kill() zeroes every independent source and every initial condition'},
+                                   'kill() leaves sources or initial conditions alive: %s' % left)
             l_noic = []
             for ll in case['lcapy']:
                 tk = ll.split()
                 if tk[0][0] in 'CL' and len(tk) == 5:
                     tk = tk[:4]
                 l_noic.append(' '.join(tk))
-            Z0 = at(lcapy.Circuit('\n'.join(l_noic)).impedance(p, m), sp, subs)
-            chk.count('oracle', 'z-ignores-ics')
-            if Z0 is not None and Z0 != Z:
-                n_cex += 1
-                chk.counterexample({'kind': 'impedance-ics'},
-                                   {'input': key_in, 'lcapy': {'Z': str(Z), 'Z without ICs': str(Z0)},
-                                    'spec': 'impedance is that of the network with initial conditions set to zero'},
-                                   'driving-point impedance depends on initial conditions')
+            if has_ic:
+                Z0 = imm(lcapy.Circuit('\n'.join(l_noic)).impedance(p, m))
+                chk.count('oracle', 'z-ignores-ics')
+                if Z0 is not None and Z0 != Z:
+                    n_cex += 1
+                    chk.counterexample({'kind': 'impedance-ics'},
+                                       {'input': key_in, 'lcapy': {'Z': str(Z), 'Z without ICs': str(Z0)},
+                                        'spec': 'impedance is that of the network with initial conditions set to zero'},
+                                       'driving-point impedance depends on initial conditions')
         except Exception as e:   # noqa
             chk.count('lcapy-error', 'noic:' + type(e).__name__)
-        # (c) port_affine on the real code: inject J (a step) and compare with Voc + Z J / s
+        # (c) port_affine on the real code: inject J and compare with Voc + Z J
         for J in (Fraction(1), Fraction(-5, 2)):
             try:
-                c2 = lcapy.Circuit(text + '\nIprobe_ %s %s step %s' % (p, m, fs(J)))
-                vp = at((c2[p].V.laplace() - c2[m].V.laplace()), sp, subs)
-                want = (Voc[0] + (Z[0] * J) / sp, Voc[1] + (Z[1] * J) / sp)
+                c2 = lcapy.Circuit(text + '\n' + probe_line('Iprobe_', p, m, J))
+                vp = src(c2[p].V - c2[m].V)
+                zj = cmul(Z, probe_val(J))
+                want = (Voc[0] + zj[0], Voc[1] + zj[1])
                 chk.count('oracle', 'port-affine')
                 if vp is not None and vp != want:
                     n_cex += 1
-                    chk.counterexample({'kind': 'port-affine'},
-                                       {'input': dict(key_in, probe=fstr(J)), 'lcapy': {'V_port': str(vp), 'Voc + Z J/s': str(want)},
+                    chk.counterexample(dict({'kind': 'port-affine'}, **ktag),
+                                       {'input': dict(key_in, probe=fstr(J)), 'lcapy': {'V_port': str(vp), 'Voc + Z J': str(want)},
                                         'spec': 'port voltage is Voc + Z times the injected current'},
                                        'port voltage is not affine in the injected current with slope Z and offset Voc')
                     break
             except Exception as e:   # noqa
                 chk.count('lcapy-error', 'probe:' + type(e).__name__)
-        # (d) load invariance: original + load  vs  thevenin | load  vs  norton | load
+        # (d) load invariance: original + load  vs  thevenin | load  vs  norton | load, in the netlist's own analysis kind
         if nontriv:
-            ld = rng.choice(['R', 'RC', 'RL', 'RV'])
+            ld = rng.choice(['R', 'RC', 'RL', 'RV'] if kind != 'dc' else ['R', 'RV', 'RL'])
             rl = Fraction(rng.randint(1, 9), rng.randint(1, 3))
             try:
                 if ld == 'R':
@@ -177,84 +257,113 @@ def run(chk, replay=None):
                 elif ld == 'RL':
                     lines_l = ['Rload_ %s nl_ %s' % (p, fs(rl)), 'Lload_ nl_ %s 3' % m]
                     op = lcapy.R(R_(rl)) + lcapy.L(3)
+                elif kind == 'ac':
+                    lines_l = ['Rload_ %s nl_ %s' % (p, fs(rl)), 'Vload_ nl_ %s ac 2 0 %s' % (m, fs(om))]
+                    op = lcapy.R(R_(rl)) + lcapy.Vac(2, 0, R_(om))
+                elif kind == 'dc':
+                    lines_l = ['Rload_ %s nl_ %s' % (p, fs(rl)), 'Vload_ nl_ %s dc 2' % m]
+                    op = lcapy.R(R_(rl)) + lcapy.Vdc(2)
                 else:
                     lines_l = ['Rload_ %s nl_ %s' % (p, fs(rl)), 'Vload_ nl_ %s step 2' % m]
                     op = lcapy.R(R_(rl)) + lcapy.Vstep(2)
-                chk.count('load', ld)
+                chk.count('load', ld + ':' + kind)
                 c3 = lcapy.Circuit(text + '\n' + '\n'.join(lines_l))
-                v_orig = at(c3[p].V.laplace() - c3[m].V.laplace(), sp, subs)
-                v_th = at((th | op).cct[1].V.laplace(), sp, subs)
-                v_no = at((no | op).cct[1].V.laplace(), sp, subs)
+                v_orig = src(c3[p].V - c3[m].V)
+                v_th = src((th | op).cct[1].V)
+                v_no = src((no | op).cct[1].V)
                 chk.count('oracle', 'load-invariance')
                 if None not in (v_orig, v_th, v_no) and not (v_orig == v_th == v_no):
                     n_cex += 1
-                    chk.counterexample({'kind': 'load-invariance', 'load': ld},
+                    chk.counterexample(dict({'kind': 'load-invariance', 'load': ld}, **ktag),
                                        {'input': dict(key_in, load=lines_l), 'lcapy': {'original': str(v_orig), 'thevenin': str(v_th), 'norton': str(v_no)},
                                         'spec': 'same load voltage with the original, the Thevenin model and the Norton model'},
                                        'load voltage changes when the circuit is replaced by its equivalent')
             except Exception as e:   # noqa
                 chk.count('lcapy-error', 'load:' + type(e).__name__ + str(e)[:30])
-        # (e) ground independence of the impedance
+        # (e) ground independence (Props/C04Ground): (i) the same netlist with the names `0` and g exchanged; (ii) the netlist
+        #     with node `0` renamed, so that Lcapy's own `_add_ground(Nm)` makes the negative port node the reference.
+        #     Applicable when every component is ground-free (the Lean model says so: no TR / SP / common-mode gain)
         try:
+            gfree = drv.ask1('port.groundfree %s || %s ||' % (an_tok, ' || '.join(case['lines']))) == 'true'
             other = [n for n in nodes if n not in ('0',)]
-            if other:
+            if other and not gfree:
+                chk.count('oracle', 'ground-independence:not-ground-free')
+            if other and gfree:
                 g = rng.choice(other)
-                sw = {'0': g, g: '0'}
-                l_sw = []
-                for ll in case['lcapy']:
-                    tk = ll.split()
-                    ty = ''.join(ch for ch in tk[0] if ch.isalpha())
-                    nn = {'TF': 4, 'GY': 4, 'E': 4, 'G': 4}.get(ty, 0 if ty == 'K' else 2)
-                    for i in range(1, 1 + nn):
-                        tk[i] = sw.get(tk[i], tk[i])
-                    l_sw.append(' '.join(tk))
-                Zg = at(lcapy.Circuit('\n'.join(l_sw)).impedance(sw.get(p, p), sw.get(m, m)), sp, subs)
-                chk.count('oracle', 'ground-independence')
-                if Zg is not None and Zg != Z and not any(l.split()[0][:2] == 'TR' for l in case['lcapy']):
-                    n_cex += 1
-                    chk.counterexample({'kind': 'ground-dependence'},
-                                       {'input': dict(key_in, regrounded=l_sw), 'lcapy': {'Z': str(Z), 'Z regrounded': str(Zg)},
-                                        'spec': 'impedance does not depend on which node is grounded'},
-                                       'driving-point impedance depends on the choice of ground')
+                for how in ('swap', 'add_ground'):
+                    sw = {'0': g, g: '0'} if how == 'swap' else {'0': 'gnd_'}
+                    l_sw = []
+                    for ll in case['lcapy']:
+                        tk = ll.split()
+                        ty = ''.join(ch for ch in tk[0] if ch.isalpha())
+                        if ty.startswith('E') and len(tk) > 3 and tk[3] == 'opamp':
+                            idx = [1, 2, 4, 5]
+                        else:
+                            nn = {'TF': 4, 'GY': 4, 'E': 4, 'G': 4, 'TP': 4}.get(ty, 0 if ty == 'K' else 2)
+                            idx = range(1, 1 + nn)
+                        for i in idx:
+                            tk[i] = sw.get(tk[i], tk[i])
+                        l_sw.append(' '.join(tk))
+                    Zg = imm(lcapy.Circuit('\n'.join(l_sw)).impedance(sw.get(p, p), sw.get(m, m)))
+                    chk.count('oracle', 'ground-independence:' + how)
+                    if Zg is not None and Zg != Z:
+                        n_cex += 1
+                        chk.counterexample({'kind': 'ground-dependence', 'how': how},
+                                           {'input': dict(key_in, regrounded=l_sw), 'lcapy': {'Z': str(Z), 'Z regrounded': str(Zg)},
+                                            'spec': 'impedance does not depend on which node is grounded'},
+                                           'driving-point impedance depends on the choice of ground')
+                        break
         except Exception as e:   # noqa
             chk.count('lcapy-error', 'reground:' + type(e).__name__)
-        # ---- correspondence with the Lean model: Voc and Z from the raw netlist
-        if not subs and not any(l.split()[0][:2] in ('TR',) for l in case['lines']):
-            an = ('ivp %s' if any(l.split()[0][0] in 'CL' and len(l.split()) == 5 for l in case['lines']) else 's %s') % fstr(sp)
-            rep = drv.ask1('mna.solve %s || %s' % (an, ' || '.join(case['lines'])))
-            killed = []
-            for ll in case['lines']:
-                tk = ll.split()
-                if tk[0][0] in 'VI' and tk[0][1:].isdigit():
-                    tk = tk[:3] + ['step', '0']
-                if tk[0][0] in 'CL' and len(tk) == 5:
-                    tk = tk[:4]
-                killed.append(' '.join(tk))
-            killed.append('Iprobe_ %s %s step 1' % (p, m))
-            rep2 = drv.ask1('mna.solve s %s || %s' % (fstr(sp), ' || '.join(killed)))
-            if rep.startswith('ok') and rep2.startswith('ok'):
-                mv = parse_reply(rep)['V']
-                mz = parse_reply(rep2)['V']
-                mVoc = (mv[p][0] - mv[m][0], mv[p][1] - mv[m][1])
-                mZ = ((mz[p][0] - mz[m][0]) * sp, (mz[p][1] - mz[m][1]) * sp)
+        # ---- correspondence with the Lean model, which builds the experiments itself from the raw netlist
+        #      (Model/PortOps.lean: kill, probe, re-ground): Voc, Isc of the original circuit, Z and Y of the killed one,
+        #      and Z again on the netlist re-grounded at a random node (measure_ground_independent, executed)
+        if not subs:
+            body = ' || '.join(case['lines'])
+            reps = {q: drv.ask1('port.%s %s || %s || %s %s' % (q, an_tok, body, p, m)) for q in ('voc', 'isc', 'impedance', 'admittance')}
+            g2 = rng.choice(nodes)
+            reps['impedance@' + g2] = drv.ask1('port.impedance %s || %s || %s %s ground=%s' % (an_tok, body, p, m, g2))
+            ind = drv.ask1('port.indep %s || %s ||' % (an_tok, body)).split()[1:]
+            if any(v != '0' for v in ind):
+                chk.coverage['correspondence']['disagreements'] += 1
+                disagreements.append({'netlist': case['lines'], 'model': 'killAll leaves ' + ' '.join(ind)})
+            if reps['voc'].startswith('ok') and reps['impedance'].startswith('ok'):
+                mVoc, mZ = norm(reps['voc'].split()[1]), norm(reps['impedance'].split()[1])
                 chk.coverage['correspondence']['compared'] += 1
-                chk.count('model', 'voc-and-z-compared')
-                if mVoc != Voc or mZ != Z:
+                chk.count('model', 'voc-and-z-compared:' + kind)
+                bad = mVoc != Voc or mZ != Z
+                if reps['isc'].startswith('ok') and norm(reps['isc'].split()[1]) != Isc:
+                    bad = True
+                if reps['admittance'].startswith('ok') and nontriv and norm(reps['admittance'].split()[1]) != Y:
+                    bad = True
+                if gfree_of(case, an_tok) and reps['impedance@' + g2].startswith('ok') and norm(reps['impedance@' + g2].split()[1]) != mZ:
+                    bad = True
+                if bad:
                     chk.coverage['correspondence']['disagreements'] += 1
-                    disagreements.append({'netlist': case['lines'], 'port': [p, m], 's': fstr(sp),
-                                          'lcapy': {'Voc': str(Voc), 'Z': str(Z)}, 'model': {'Voc': str(mVoc), 'Z': str(mZ)}})
+                    disagreements.append({'netlist': case['lines'], 'port': [p, m], 'analysis': an_tok,
+                                          'lcapy': {'Voc': str(Voc), 'Z': str(Z), 'Isc': str(Isc), 'Y': str(Y)}, 'model': reps})
             else:
-                chk.count('model', (rep if not rep.startswith('ok') else rep2)[:30])
+                chk.count('model', (reps['voc'] if not reps['voc'].startswith('ok') else reps['impedance'])[:30])
 
+    def gfree_of(case, an_tok):
+        return drv.ask1('port.groundfree %s || %s ||' % (an_tok, ' || '.join(case['lines']))) == 'true'
 
     done = 0
     attempts = 0
-    while done < ncases and attempts < 6 * ncases:
+    plan = (['s'] * 10 + ['ivp'] * 8 + ['ac'] * 7 + ['dc'] * 5) if quick else (['s'] * 100 + ['ivp'] * 90 + ['ac'] * 70 + ['dc'] * 40)
+    while done < len(plan) and attempts < 6 * len(plan):
         attempts += 1
-        case = gen_netlist.random_case(rng, analysis=rng.choice(['s', 's', 'ivp']), max_nodes=5)
+        kind = plan[done]
+        case = gen_netlist.random_case(rng, analysis=kind, max_nodes=5)
+        if any(l.split()[0][:2] in ('TR', 'AM', 'GY') or l.split()[0][0] in 'KW' for l in case['lines']):
+            chk.count('generator', 'kinds-not-used-here')
         # keep only circuits the Lean model finds non-singular at a probe point (ill-posed draws are outside the property)
-        pre = drv.ask1('mna.solve %s 5/3 || %s' % ('ivp' if any(l.split()[0][0] in 'CL' and len(l.split()) == 5 for l in case['lines']) else 's',
-                                                    ' || '.join(case['lines'])))
+        has_ic = any(l.split()[0][0] in 'CL' and len(l.split()) == 5 for l in case['lines'])
+        if kind == 'ivp' and not has_ic and rng.random() < 0.7:
+            chk.count('generator', 'ivp-draw-without-ics-redrawn')
+            continue
+        pre_an = {'ac': 'ac %s' % fstr(case.get('omega') or 1), 'dc': 'dc'}.get(kind, ('ivp' if has_ic else 's') + ' 5/3')
+        pre = drv.ask1('mna.solve %s || %s' % (pre_an, ' || '.join(case['lines'])))
         if not pre.startswith('ok'):
             chk.count('generator', 'rejected:' + pre.split(':')[0][:20])
             continue
@@ -265,6 +374,7 @@ def run(chk, replay=None):
         except common.TimeLimit:
             chk.count('lcapy-error', 'time-limit')
             chk.case(('timeout', tuple(case['lcapy'])), False)
+    mark('netlist-ports')
 
     # ---- one-port networks: net.thevenin() / net.norton() against the network itself
     def leaf(kind):
@@ -318,7 +428,7 @@ def run(chk, replay=None):
     for k in range(nnets + ndirected_nets):
         sp = Fraction(rng.randint(1, 9), rng.randint(2, 5))
         try:
-            with common.time_limit(20):
+            with common.time_limit(10 if quick else 30):
                 net = directed_net(k) if k < ndirected_nets else tree(1, rng.choice(['ser', 'par']))
                 desc = str(net)
                 Voc0 = at(net.Voc.laplace(), sp, {})
@@ -390,74 +500,201 @@ def run(chk, replay=None):
             extra = ['I1 0 %d step %s' % (rng.randint(2, node), val())]
         return lines, extra, node
 
-    def killed_lines(lines):
+    mark('oneport-networks')
+    TQ = ('transfer', 'voltage_gain', 'transimpedance', 'transadmittance', 'current_gain')
+
+    def rename_ground(lines):
+        """the same netlist without a node `0` (so that Lcapy's `_add_ground(N1m)` chooses the reference)"""
         out = []
         for ll in lines:
             tk = ll.split()
-            if tk[0][0] == 'V':
-                out.append('W %s %s' % (tk[1], tk[2]))
-            elif tk[0][0] == 'I':
-                continue
-            elif tk[0][0] in 'CL' and len(tk) == 5:
-                out.append(' '.join(tk[:4]))
-            else:
-                out.append(ll)
+            ty = ''.join(ch for ch in tk[0] if ch.isalpha())
+            nn = {'TF': 4, 'GY': 4, 'E': 4, 'G': 4, 'TP': 4}.get(ty, 0 if ty == 'K' else 2)
+            for i in range(1, 1 + nn):
+                if tk[i] == '0':
+                    tk[i] = 'gnd_'
+            out.append(' '.join(tk))
         return out
 
-    for k in range(10 if quick else 150):
+    for k in range(9 if quick else 150):
         sp = Fraction(rng.randint(1, 9), rng.randint(2, 5))
         if k % 5 == 4:
             case = gen_netlist.random_case(rng, analysis='s', max_nodes=5)
-            if case['subs'] or any(l.split()[0][0] in 'KW' or l.split()[0][:2] in ('TR', 'AM', 'GY', 'TF') for l in case['lines']):
+            if case['subs'] or any(l.split()[0][0] in 'KW' or l.split()[0][:2] in ('TR', 'AM', 'GY', 'TF') or ' opamp ' in l for l in case['lines']):
                 continue
             lines, extra = case['lines'], []
             nodes_ = sorted({n_ for l in lines for n_ in l.split()[1:3]} - {'0'})
             if len(nodes_) < 2:
                 continue
             p1, p2 = rng.sample(nodes_, 2)
-            family = 'random'
+            m1 = m2 = '0'
+            if len(nodes_) >= 3 and rng.random() < 0.5:       # floating ports
+                m1 = rng.choice([n_ for n_ in nodes_ if n_ != p1])
+                m2 = rng.choice([n_ for n_ in nodes_ + ['0'] if n_ != p2])
+            family = 'random' if (m1, m2) == ('0', '0') else 'random-floating'
         else:
             lines, extra, last = ladder_net()
             p1, p2 = '1', str(rng.randint(2, last))
+            m1 = m2 = '0'
             family = 'ladder-interior' if p2 != str(last) else 'ladder-end'
-        klines = killed_lines(lines)
         text = '\n'.join(lines + extra)
+        body = ' || '.join(lines + extra)
         chk.count('transfer-family', family)
+        # spec side: the Lean model kills the netlist and attaches the probes itself (Model/PortOps.lean)
         want = {}
-        r1 = drv.ask1('mna.solve s %s || %s' % (fstr(sp), ' || '.join(klines + ['Vt_ %s 0 step %s' % (p1, fs(sp))])))
-        r2 = drv.ask1('mna.solve s %s || %s' % (fstr(sp), ' || '.join(klines + ['It_ %s 0 step %s' % (p1, fs(sp))])))
-        r3 = drv.ask1('mna.solve s %s || %s' % (fstr(sp), ' || '.join(klines + ['Vt_ %s 0 step %s' % (p1, fs(sp)), 'Vsh_ %s 0 step 0' % p2])))
-        r4 = drv.ask1('mna.solve s %s || %s' % (fstr(sp), ' || '.join(klines + ['It_ %s 0 step %s' % (p1, fs(sp)), 'Vsh_ %s 0 step 0' % p2])))
-        if r1.startswith('ok'):
-            want['transfer'] = want['voltage_gain'] = parse_reply(r1)['V'][p2]
-        if r2.startswith('ok'):
-            want['transimpedance'] = parse_reply(r2)['V'][p2]
-        if r3.startswith('ok'):
-            j = parse_reply(r3)['J']['Vsh_']
-            want['transadmittance'] = (-j[0], -j[1])
-        if r4.startswith('ok'):
-            j = parse_reply(r4)['J']['Vsh_']
-            want['current_gain'] = (-j[0], -j[1])
-        chk.case(('transfer', text, p1, p2, sp), bool(want))
+        for q in TQ:
+            r = drv.ask1('port.%s s %s || %s || %s %s %s %s' % ('transfer' if q == 'voltage_gain' else q, fstr(sp), body, p1, m1, p2, m2))
+            if r.startswith('ok') and 'undef' not in r:
+                want[q] = norm(r.split()[1])
+        chk.case(('transfer', text, p1, m1, p2, m2, sp), bool(want))
         if not want:
-            chk.count('model', 'transfer:' + r1[:20])
+            chk.count('model', 'transfer:' + r[:20])
             continue
         try:
             with common.time_limit(60):
                 cct = lcapy.Circuit(text)
-                got = {q: at(getattr(cct, q)(p1, 0, p2, 0), sp, {}) for q in want}
+                got = {q: at(getattr(cct, q)(p1, m1, p2, m2), sp, {}) for q in want}
         except (Exception, common.TimeLimit) as e:   # noqa
             chk.count('lcapy-error', 'transfer:' + type(e).__name__ + ':' + str(e)[:40])
             continue
+        failed = False
         for q in sorted(want):
             chk.count('oracle', 'transfer-function:' + q)
             if got[q] is not None and got[q] != want[q]:
                 n_cex += 1
+                failed = True
                 chk.counterexample({'kind': 'transfer-function', 'quantity': q, 'family': family},
-                                   {'input': {'netlist': lines + extra, 'port1': [p1, '0'], 'port2': [p2, '0'], 's': fstr(sp)},
+                                   {'input': {'netlist': lines + extra, 'port1': [p1, m1], 'port2': [p2, m2], 's': fstr(sp)},
                                     'lcapy': {q: str(got[q])}, 'spec': '%s of the killed network by the Lean MNA model = %s' % (q, want[q])},
-                                   '%s(%s,0,%s,0) is not that of the network with sources killed' % (q, p1, p2))
+                                   '%s(%s,%s,%s,%s) is not that of the network with sources killed' % (q, p1, m1, p2, m2))
                 break
+        # ground independence of the transfer functions (Props/C04Ground): the netlist without a node `0`, where Lcapy's
+        # `_add_ground(N1m)` makes the negative input node the reference; and the model re-grounded at that node
+        if not failed and k % 2 == 0:
+            q = rng.choice(sorted(want))
+            try:
+                with common.time_limit(60):
+                    ren = {'0': 'gnd_'}
+                    c2 = lcapy.Circuit('\n'.join(rename_ground(lines + extra)))
+                    g2 = at(getattr(c2, q)(ren.get(p1, p1), ren.get(m1, m1), ren.get(p2, p2), ren.get(m2, m2)), sp, {})
+                mg = drv.ask1('port.%s s %s || %s || %s %s %s %s ground=%s' % ('transfer' if q == 'voltage_gain' else q, fstr(sp), body, p1, m1, p2, m2, m1))
+                chk.count('oracle', 'ground-independence:transfer-functions')
+                if mg.startswith('ok') and norm(mg.split()[1]) != want[q]:
+                    chk.coverage['correspondence']['disagreements'] += 1
+                    disagreements.append({'netlist': lines + extra, 'quantity': q, 'model': want[q], 'model regrounded': mg})
+                if g2 is not None and g2 != got[q]:
+                    n_cex += 1
+                    chk.counterexample({'kind': 'ground-dependence', 'quantity': q},
+                                       {'input': {'netlist': lines + extra, 'regrounded': rename_ground(lines + extra), 'port1': [p1, m1], 'port2': [p2, m2], 's': fstr(sp)},
+                                        'lcapy': {q: str(got[q]), q + ' regrounded': str(g2)},
+                                        'spec': 'transfer functions do not depend on which node is grounded'},
+                                       '%s depends on the choice of ground' % q)
+            except (Exception, common.TimeLimit) as e:   # noqa
+                chk.count('lcapy-error', 'transfer-reground:' + type(e).__name__ + ':' + str(e)[:40])
+    mark('transfer-functions')
+
+    # ---- two-port extraction from a netlist (Props/C04Ops zparams_rel / yparams_rel / zparams_convert): Zparams, Yparams,
+    #      Aparams, Hparams of random and ladder netlists.  Correspondence: the Lean model's probe experiments (port.zparams:
+    #      open-circuit drive, port.yparams: short-circuit drive) and the code's GENERATED conversions of C08.  Oracle: the
+    #      REAL killed netlist driven with arbitrary currents at both ports -- Lcapy's own solution (V1, I1, V2, I2) must
+    #      satisfy the C08 relation `rel` of each reported matrix (judged by the Lean spec, `tp.rel`).
+    def m2s(M):
+        return ' '.join(fstr(x_) for x_ in M)
+
+    for k in range(6 if quick else 100):
+        sp = Fraction(rng.randint(1, 9), rng.randint(2, 5))
+        if k % 3 == 2:
+            case = gen_netlist.random_case(rng, analysis=rng.choice(['s', 'ivp']), max_nodes=5)
+            if case['subs'] or any(l.split()[0][0] in 'KW' or l.split()[0][:2] in ('TR', 'AM', 'GY', 'TF') or ' opamp ' in l for l in case['lines']):
+                continue
+            lines = case['lines']
+            nodes_ = sorted({n_ for l in lines for n_ in l.split()[1:3]} - {'0'})
+            if len(nodes_) < 2:
+                continue
+            p1, p2 = rng.sample(nodes_, 2)
+            m1 = m2 = '0'
+            if len(nodes_) >= 3 and rng.random() < 0.4:
+                m1 = rng.choice([n_ for n_ in nodes_ if n_ not in (p1, p2)])
+            family = 'random'
+        else:
+            lines, extra, last = ladder_net()
+            lines = lines + extra
+            p1, p2 = '1', str(rng.randint(2, last))
+            m1 = m2 = '0'
+            family = 'ladder'
+        text = '\n'.join(lines)
+        body = ' || '.join(lines)
+        chk.count('twoport-family', family)
+        rz = drv.ask1('port.zparams s %s || %s || %s %s %s %s' % (fstr(sp), body, p1, m1, p2, m2))
+        ry = drv.ask1('port.yparams s %s || %s || %s %s %s %s' % (fstr(sp), body, p1, m1, p2, m2))
+        chk.case(('twoport', text, p1, m1, p2, m2, sp), rz.startswith('ok'))
+        if not rz.startswith('ok') or 'undef' in rz or ',' in rz:
+            chk.count('model', 'twoport:' + rz[:20])
+            continue
+        mZ = [Fraction(x_) for x_ in rz.split()[1:]]
+        try:
+            with common.time_limit(90):
+                cct = lcapy.Circuit(text)
+                got = {}
+                for nm in ('Z', 'Y', 'A', 'H'):
+                    try:
+                        M = getattr(cct, nm + 'params')(p1, m1, p2, m2)
+                        vals = [at(M[i, j_], sp, {}) for i in (0, 1) for j_ in (0, 1)]
+                        if all(v_ is not None and v_[1] == 0 for v_ in vals):
+                            got[nm] = [v_[0] for v_ in vals]
+                    except Exception as e:   # noqa
+                        chk.count('lcapy-error', 'twoport-%s:%s' % (nm, type(e).__name__))
+                # drive the real killed netlist with arbitrary port currents
+                i1 = Fraction(rng.randint(1, 7), rng.randint(1, 3)) * rng.choice([1, -1])
+                i2 = Fraction(rng.randint(1, 7), rng.randint(1, 3)) * rng.choice([1, -1])
+                kd = cct.kill()
+                drv_lines = str(kd.netlist()) + '\nIa_ %s %s step %s\nIb_ %s %s step %s' % (p1, m1, fs(i1 * sp), p2, m2, fs(i2 * sp))
+                cd_ = lcapy.Circuit(drv_lines)
+                V1 = at((cd_[p1].V - cd_[m1].V).laplace(), sp, {})
+                V2 = at((cd_[p2].V - cd_[m2].V).laplace(), sp, {})
+        except (Exception, common.TimeLimit) as e:   # noqa
+            chk.count('lcapy-error', 'twoport:' + type(e).__name__ + ':' + str(e)[:40])
+            continue
+        # correspondence: Z by the open-circuit experiments of the model; Y by its short-circuit experiments AND by the
+        # code's own conversion of Z (GENERATED); A, H by the code's conversions
+        if 'Z' in got:
+            chk.coverage['correspondence']['compared'] += 1
+            chk.count('model', 'zparams-compared')
+            if got['Z'] != mZ:
+                chk.coverage['correspondence']['disagreements'] += 1
+                disagreements.append({'netlist': lines, 'ports': [p1, m1, p2, m2], 's': fstr(sp), 'lcapy Z': m2s(got['Z']), 'model Z': m2s(mZ)})
+        for nm, conv in (('Y', 'Z_to_Y'), ('A', 'Z_to_A'), ('H', 'Z_to_H')):
+            if nm in got:
+                r = drv.ask1('tp.conv %s %s 0' % (conv, m2s(mZ)))
+                if 'undef' in r:
+                    chk.count('model', 'twoport:%s-undefined' % conv)
+                    continue
+                chk.coverage['correspondence']['compared'] += 1
+                if [Fraction(x_) for x_ in r.split()] != got[nm]:
+                    chk.coverage['correspondence']['disagreements'] += 1
+                    disagreements.append({'netlist': lines, 'ports': [p1, m1, p2, m2], 's': fstr(sp), 'lcapy ' + nm: m2s(got[nm]), 'model ' + conv: r})
+        if 'Y' in got and ry.startswith('ok') and 'undef' not in ry and ',' not in ry:
+            chk.coverage['correspondence']['compared'] += 1
+            chk.count('model', 'yparams-short-circuit-compared')
+            if [Fraction(x_) for x_ in ry.split()[1:]] != got['Y']:
+                chk.coverage['correspondence']['disagreements'] += 1
+                disagreements.append({'netlist': lines, 'ports': [p1, m1, p2, m2], 's': fstr(sp), 'lcapy Y': m2s(got['Y']), 'model short-circuit Y': ry})
+        # oracle: the C08 port relation of each reported matrix on the driven real circuit
+        if V1 is None or V2 is None or V1[1] != 0 or V2[1] != 0:
+            chk.count('lcapy', 'twoport-drive-not-rational')
+            continue
+        for nm in sorted(got):
+            verdict = drv.ask1('tp.rel %s %s 0 %s %s %s %s' % (nm, m2s(got[nm]), fstr(V1[0]), fstr(i1), fstr(V2[0]), fstr(i2)))
+            chk.count('oracle', 'twoport-relation:' + nm)
+            if verdict != 'true':
+                n_cex += 1
+                chk.counterexample({'kind': 'twoport-extraction', 'representation': nm, 'family': family},
+                                   {'input': {'netlist': lines, 'port1': [p1, m1], 'port2': [p2, m2], 's': fstr(sp), 'I1': fstr(i1), 'I2': fstr(i2)},
+                                    'lcapy': {nm + 'params': m2s(got[nm]), 'V1': fstr(V1[0]), 'V2': fstr(V2[0])},
+                                    'spec': 'the C08 port relation of the %s representation holds for the killed netlist driven at both ports' % nm},
+                                   '%sparams of the netlist do not describe its port behaviour' % nm)
+                break
+    mark('twoport-extraction')
 
     chk.coverage['correspondence']['samples_of_disagreement'] = disagreements[:5]
     if broken and n_cex == 0:
